@@ -24,6 +24,10 @@ extern const char *tjv_tr[3][TR]; extern unsigned tjv_tn[3]; extern int tjv_run;
 #define CAT_(a, b, c) a##b##c
 #define CAT(a, b, c) CAT_(a, b, c)
 static void fill(uint8_t *p, unsigned n) { for (unsigned i = 0; i < n; i++) p[i] = nondet_u8(); }
+#if WHAT == 6
+#include "prng_view.h"
+static size_t ct_cb(void *u, unsigned char *buf, size_t size) { (void)u; for (int i = 0; i < 32; i++) buf[i] = nondet_u8(); return size; }
+#endif
 static void once(void)
 {
 #if WHAT == 0          /* check_tag: tags and plaintext secret */
@@ -43,6 +47,11 @@ static void once(void)
 #elif WHAT == 4        /* HMAC: key and message secret, key LENGTH public */
   uint8_t key[KL + 1], m[ML + 1], d[32]; fill(key, KL); fill(m, ML);
   tinyjambu_hmac(d, key, KL, m, ML);
+#elif WHAT == 6        /* PRNG generate: V, C and the entropy bytes secret; sizes, counter and limit public */
+  prng_obj_t po; prng_view_t *pv = &po.p;
+  fill(pv->V, 32); fill(pv->C, 32); pv->reseed_counter = AD; pv->reseed_limit = KL; pv->callback = ct_cb; pv->user_data = 0;
+  uint8_t o[ML + 1];
+  tinyjambu_prng_generate((tinyjambu_prng_state_t *)&po, o, ML);
 #elif WHAT == 5        /* permutation: state and key secret, round count public */
   CAT(tinyjambu_, NNN, _state_t) s; for (int i = 0; i < 4; i++) s.s[i] = nondet_u32(); for (int i = 0; i < NNN / 32; i++) s.k[i] = nondet_u32();
   CAT(tinyjambu_permutation_, NNN, )(&s, ML);
